@@ -89,6 +89,17 @@ def check_flash_loan(ctx, model):
                         kind = ("borrower", funds)
                     elif any(x.kind == "agg" and x.a.endswith("Cw20ExecuteMsg::Transfer") for x in msg):
                         kind = ("loan-transfer", msg)
+                        # the cw20 loan goes to the borrower and carries the requested amount
+                        for bb2, i2, s2 in v.iter_stmts():
+                            r2 = s2["rv"]
+                            if r2["r"] == "agg" and r2.get("adt") == "cw20::Cw20ExecuteMsg" and r2.get("variant") == "Transfer":
+                                f2 = dict(zip(r2["fields"], r2["ops"]))
+                                rc_ = v.origins_of_operand(f2["recipient"], at=(bb2, i2))
+                                am_ = v.origins_of_operand(f2["amount"], at=(bb2, i2))
+                                okt = bool(rc_) and all(x.kind == "param" and x.a == info and tuple(x.proj) == ("sender",) for x in rc_) and bool(am_) and all(
+                                    x.kind == "param" and x.a == amount and not x.proj for x in am_)
+                                ctx.ob("C06-X2", "%s|cw20-loan-transfer-fields" % FLASH, okt,
+                                       "cw20 loan Transfer{recipient: %s, amount: %s} (must be the borrower and the requested amount)" % (sorted(map(repr, rc_)), sorted(map(repr, am_))), v.where(bb2))
         pushes.append((b, kind))
     kinds = {k[0]: b for b, k in pushes if k}
     ctx.ob("C06-X2", "%s|messages-present" % FLASH, {"callback", "borrower", "loan-transfer"} <= set(kinds) and all(k for _, k in pushes),
